@@ -106,8 +106,8 @@ C13_OBS = [
     ob("O13.1a", DIR + "dir_remove_all_unlink_ok", "utils::remove_all(dir, name), every name <= L, unlinkat succeeds: refused names ('', '.', '..', any '/') make ZERO syscalls and fail; otherwise exactly unlinkat(dir,name,0) and Ok", stubs=RA_STUBS, covers_may_be_unsat=["rmdir-ed", "scanned", "scan open failed"], cost=5),
     ob("O13.1b", DIR + "dir_remove_all_rmdir_ok", "... unlink fails (any errno), rmdir succeeds: unlinkat(0) then unlinkat(AT_REMOVEDIR), Ok", stubs=RA_STUBS, covers_may_be_unsat=["unlinked", "scanned", "scan open failed"], cost=5),
     ob("O13.3a", DIR + "dir_remove_inode_contract", "remove_inode(dir,name) real body, arbitrary kernel: unlinkat(0) then unlinkat(AT_REMOVEDIR) on the same (dir,name); Ok if either succeeds; else the errno reported is rmdir's unless that is ENOTDIR (then unlink's)", stubs=["syscalls::unlinkat"], cost=6),
-    ob("O13.3b", DIR + "dir_scan_open_fails", "utils::remove_all, every non-refused name <= L, removal failed with EACCES and the directory-scan open fails with EACCES (remove_inode replaced by its contract O13.3a): the open is openat(dir,name) with O_DIRECTORY|O_NOFOLLOW, the failure is REPORTED (Ok only for ENOENT), exactly two steps", stubs=["remove_inode", "syscalls::openat_follow", "Dir::read_from"], covers_may_be_unsat=["listing failed", "directory vanished"], cost=6),
-    ob("O13.3c", DIR + "dir_scan_listing", "... removal failed with ENOTEMPTY, scan open succeeds, listing fails with an arbitrary errno: ENOENT => one more removal attempt on the same (dir,name), else that errno; sub-directory fd closed", stubs=["remove_inode", "syscalls::openat_follow", "Dir::read_from"], covers_may_be_unsat=["scan open failed"], cost=6),
+    ob("O13.3b", DIR + "dir_scan_open_fails", "utils::remove_all, every non-refused name <= L, removal failed with EACCES and the directory-scan open fails with EACCES (remove_inode replaced by its contract O13.3a): the open is openat(dir,name) with O_DIRECTORY|O_NOFOLLOW, the failure is REPORTED (Ok only for ENOENT), exactly two steps", stubs=["remove_inode", "syscalls::openat_follow", "Dir::read_from"], covers_may_be_unsat=["listing failed", "directory vanished"], tiers=("thorough",), timeout={"thorough": 5400}, mem_gb=30, cost=6),
+    ob("O13.3c", DIR + "dir_scan_listing", "... removal failed with ENOTEMPTY, scan open succeeds, listing fails with an arbitrary errno: ENOENT => one more removal attempt on the same (dir,name), else that errno; sub-directory fd closed", stubs=["remove_inode", "syscalls::openat_follow", "Dir::read_from"], covers_may_be_unsat=["scan open failed"], tiers=("thorough",), timeout={"thorough": 5400}, mem_gb=30, cost=6),
     ob("O13.1f", DIR + "dir_remove_all_scan_enotempty", "... unlink and rmdir fail with ENOTEMPTY (non-empty directory), scan open succeeds: the open is openat(dir, name, O_DIRECTORY|O_NOFOLLOW), listing failure is reported, sub-directory fd closed [monolithic: no contract stub]", stubs=RA_STUBS, covers_may_be_unsat=["unlinked", "rmdir-ed", "refused", "scan open failed"], tiers=("thorough",), timeout={"thorough": 5400}, mem_gb=30, cost=6),
     ob("O13.1g", DIR + "dir_remove_all_open_eacces", "... unlink, rmdir and the scan open all fail with EACCES: EACCES is reported (never Ok), exactly three calls, scan open flags as above [monolithic]", stubs=RA_STUBS, covers_may_be_unsat=["unlinked", "rmdir-ed", "scanned"], tiers=("thorough",), timeout={"thorough": 5400}, mem_gb=30, cost=6),
     ob("O13.1c", DIR + "dir_remove_all_open_fail", "... unlink, rmdir and the scan open all fail with arbitrary errnos: ENOENT anywhere => Ok, scan open is O_DIRECTORY|O_NOFOLLOW on (dir,name), other errno => that errno", stubs=RA_STUBS, covers_may_be_unsat=["unlinked", "scanned"], tiers=("thorough",), timeout={"thorough": 3000}, cost=6),
@@ -124,8 +124,8 @@ O_TRY_FROM_FD = ob("O6.3", PF + "procfs_try_from_fd", "ProcfsHandle::try_from_fd
 O_OPEN_UNMASKED = ob("O6.4a", PF + "procfs_open_unmasked", "ProcfsHandle::open (unmasked handle) for every base, sub-path <= L, flag word and K: sub-path lookup is forced O_NOFOLLOW with the caller's other bits verbatim; a descriptor is returned only after statx mount-id equality with the handle AND fstatfs==procfs on that very descriptor; no retry; no leak", stubs=OPEN_STUBS, covers_may_be_unsat=["retried once"], tiers=("thorough",), timeout={"thorough": 3000}, cost=8)
 O_OPEN_OKPATH = ob("O6.4b", PF + "procfs_open_okpath", "ProcfsHandle::open, every kernel step succeeds, mount ids / fs types / flag word / sub-path symbolic: returned only if statx mount id == handle's AND f_type == procfs on that descriptor, else EXDEV; sub-path lookup forced O_NOFOLLOW", stubs=OPEN_STUBS, covers_may_be_unsat=["ENOENT reported", "retried once"], cost=6)
 O_OPEN_LOOKUPFAIL = ob("O6.4c", PF + "procfs_open_lookup_fails", "ProcfsHandle::open on an unmasked handle whose sub-path lookup fails with ANY errno: that error, no retry handle, base descriptor closed", stubs=OPEN_STUBS, covers_may_be_unsat=["opened", "over-mount detected", "retried once"], cost=6)
-O_OPEN_RETRY_OK = ob("O8.2", PF + "procfs_open_masked_retry_ok", "masked handle + ENOENT: exactly one retry handle is created, the lookup is repeated on it with the same arguments, its result is verified against ITS mount and returned; retry handle closed", stubs=OPEN_STUBS, covers_may_be_unsat=["ENOENT reported"], cost=8)
-O_OPEN_RETRY_MASKED = ob("O8.3", PF + "procfs_open_masked_retry_still_masked", "masked handle + ENOENT, and the retry handle is masked as well and also answers ENOENT (unprivileged caller on a hidepid/subset host): ENOENT is reported after ONE retry; no second retry handle (bounded handles/descriptors)", stubs=OPEN_STUBS, covers_may_be_unsat=["opened", "over-mount detected"], cost=8)
+O_OPEN_RETRY_OK = ob("O8.2", PF + "procfs_open_masked_retry_ok", "masked handle + ENOENT: exactly one retry handle is created, the lookup is repeated on it with the same arguments, its result is verified against ITS mount and returned; retry handle closed", stubs=OPEN_STUBS, covers_may_be_unsat=["ENOENT reported"], tiers=("thorough",), timeout={"thorough": 5400}, mem_gb=30, cost=8)
+O_OPEN_RETRY_MASKED = ob("O8.3", PF + "procfs_open_masked_retry_still_masked", "masked handle + ENOENT, and the retry handle is masked as well and also answers ENOENT (unprivileged caller on a hidepid/subset host): ENOENT is reported after ONE retry; no second retry handle (bounded handles/descriptors)", stubs=OPEN_STUBS, covers_may_be_unsat=["opened", "over-mount detected"], timeout={"quick": 3600, "thorough": 5400}, mem_gb=30, cost=8)
 O_OPEN_MASKED = ob("O8.1", PF + "procfs_open_masked", "ProcfsHandle::open on a masked (subset/hidepid) handle: ENOENT is retried on at most ONE freshly created handle (which may itself be masked), returned descriptors verified on the handle that produced them, retry handle closed", stubs=OPEN_STUBS, tiers=("thorough",), timeout={"thorough": 3000}, cost=9)
 O_TFF_FAULT = ob("O10.3", PF + "procfs_try_from_fd_fstat_fault", "try_from_fd when the fstat of the candidate handle fails: clean error, no panic, descriptor closed", stubs=["FdExt>::metadata"], covers_may_be_unsat=["masked handle", "unmasked handle"], cost=5)
 
@@ -173,12 +173,12 @@ C14_CAPI = [
 MK_STUBS = ["Resolver::resolve_partial", "Handle::reopen", "syscalls::mkdirat", "syscalls::openat_follow"]
 C12_OBS = [
     ob("O12.1", ROOT + "root_mkdir_all_bad_mode", "mkdir_all with EVERY mode having a bit outside 0o1777: InvalidArgument and zero lookups/syscalls", stubs=["Resolver::resolve_partial"], cost=2),
-    ob("O12.2a", ROOT + "root_mkdir_all_tail_ok", "mkdir_all, partial lookup stopped with ENOENT, EVERY remaining tail <= L and every valid mode, all kernel steps succeed: '..' among the components => ENOENT and nothing created; otherwise exactly mkdirat(cur,c,mode verbatim) + openat(cur,c,O_DIRECTORY|O_NOFOLLOW) per non-empty non-'.' component, chained through the opened fds; returned handle = last opened fd; intermediates closed", stubs=MK_STUBS, covers_may_be_unsat=["aborted midway"], cost=8),
-    ob("O12.2b", ROOT + "root_mkdir_all_tail_eexist", "... the first mkdirat answers EEXIST: tolerated, walk continues exactly as above", stubs=MK_STUBS, covers_may_be_unsat=["aborted midway", "nothing to create"], cost=8),
-    ob("O12.2c", ROOT + "root_mkdir_all_tail_mkdir_fails", "... the first mkdirat fails with EACCES: abort with that errno after that single call, descriptors closed", stubs=MK_STUBS, covers_may_be_unsat=["one directory created", "two directories created"], cost=7),
-    ob("O12.2d", ROOT + "root_mkdir_all_tail_open_fails", "... the open of the first created component fails: abort, descriptors closed", stubs=MK_STUBS, covers_may_be_unsat=["one directory created", "two directories created"], cost=7),
+    ob("O12.2a", ROOT + "root_mkdir_all_tail_ok", "mkdir_all, partial lookup stopped with ENOENT, EVERY remaining tail <= L and every valid mode, all kernel steps succeed: '..' among the components => ENOENT and nothing created; otherwise exactly mkdirat(cur,c,mode verbatim) + openat(cur,c,O_DIRECTORY|O_NOFOLLOW) per non-empty non-'.' component, chained through the opened fds; returned handle = last opened fd; intermediates closed", stubs=MK_STUBS, covers_may_be_unsat=["aborted midway", "two directories created"], timeout={"quick": 3000, "thorough": 5400}, mem_gb=30, cost=8),
+    ob("O12.2b", ROOT + "root_mkdir_all_tail_eexist", "... the first mkdirat answers EEXIST: tolerated, walk continues exactly as above", stubs=MK_STUBS, covers_may_be_unsat=["aborted midway", "nothing to create"], tiers=("thorough",), timeout={"thorough": 5400}, mem_gb=30, cost=8),
+    ob("O12.2c", ROOT + "root_mkdir_all_tail_mkdir_fails", "... the first mkdirat fails with EACCES: abort with that errno after that single call, descriptors closed", stubs=MK_STUBS, covers_may_be_unsat=["one directory created", "two directories created"], tiers=("thorough",), timeout={"thorough": 5400}, mem_gb=30, cost=7),
+    ob("O12.2d", ROOT + "root_mkdir_all_tail_open_fails", "... the open of the first created component fails: abort, descriptors closed", stubs=MK_STUBS, covers_may_be_unsat=["one directory created", "two directories created"], tiers=("thorough",), timeout={"thorough": 5400}, mem_gb=30, cost=7),
     ob("O12.2", ROOT + "root_mkdir_all_tail", "mkdir_all when the partial lookup stops with ENOENT and EVERY remaining tail <= L bytes: '..' among the components => ENOENT and nothing created; otherwise exactly mkdirat(cur,c,mode) + openat(cur,c,O_DIRECTORY|O_NOFOLLOW) per non-empty non-'.' component, chained through the opened fds; EEXIST tolerated, any other errno aborts; handle returned = last opened fd; intermediates closed [all fault combinations in one query]", stubs=MK_STUBS, tiers=("thorough",), timeout={"thorough": 5400}, mem_gb=24, cost=9),
-    ob("O12.3", ROOT + "root_mkdir_all_complete", "mkdir_all when the path already resolves: O_DIRECTORY reopen of the handle, zero mkdirat", stubs=MK_STUBS, covers_may_be_unsat=["one directory", "two directories", "dotdot refused", "aborted midway"], cost=5),
+    ob("O12.3", ROOT + "root_mkdir_all_complete", "mkdir_all when the path already resolves: O_DIRECTORY reopen of the handle, zero mkdirat", stubs=MK_STUBS, covers_may_be_unsat=["one directory", "two directories", "dotdot refused", "aborted midway"], tiers=("thorough",), timeout={"thorough": 5400}, mem_gb=30, cost=5),
     ob("O12.4", ROOT + "root_mkdir_all_partial_other_error", "mkdir_all when the partial lookup stopped for a reason other than ENOENT: that error, nothing created", stubs=["Resolver::resolve_partial"], covers_may_be_unsat=["nothing to create", "one directory", "two directories", "dotdot refused", "aborted midway"], tiers=("thorough",), cost=5),
     ob("O12.5", ROOT + "root_mkdir_all_resolver_error", "mkdir_all when the resolver fails: error, nothing created", stubs=["Resolver::resolve_partial"], covers_may_be_unsat=["nothing to create", "one directory", "two directories", "dotdot refused", "aborted midway"], tiers=("thorough",), cost=4),
 ]
@@ -214,7 +214,7 @@ O_GLOBAL_INIT = ob("O10.5", PF + "procfs_global_handle_init_fault", "first use o
 C10_OBS = [O_NEW_FAIL, O_GLOBAL_INIT, O_TFF_FAULT, O_O2_EAGAIN, O_O2_ENOSYS, O_O2_EMFILE, O_FETCH_MNT, O_SAME_MNT, O_IS_PROCFS] + \
     pick(C14_OPS, "O14.6.base", "O14.5.base", "O14.1.base") + pick(C12_OBS, "O12.2a", "O12.2c", "O12.2d") + \
     pick(C13_OBS, "O13.1a", "O13.1b", "O13.1g", "O13.3a", "O13.3b", "O13.3c") + [o for o in O_ERR_EQUIV]
-C03_OBS = [O_RESOLVE_PARENT] + [o for o in C14_OPS if o["id"].endswith(".base")] + O_RA_TOP[:1] + pick(C13_OBS, "O13.1a", "O13.1b", "O13.3b", "O13.1f") + pick(C12_OBS, "O12.2a", "O12.2")
+C03_OBS = [O_RESOLVE_PARENT] + [o for o in C14_OPS if o["id"].endswith(".base")] + O_RA_TOP[:1] + pick(C13_OBS, "O13.1a", "O13.1b", "O13.3a", "O13.3b", "O13.1f") + pick(C12_OBS, "O12.2a", "O12.2")
 C11_OBS = C11_CAPI + pick(C14_OPS, "O14.5.base", "O14.5.nobase", "O14.6.base", "O14.1.base") + [O_RESOLVE_PARENT, O_TRY_FROM_FD, O_OPEN_OKPATH, O_OPEN_LOOKUPFAIL, O_OF_LINK] + pick(C12_OBS, "O12.2a", "O12.2d") + pick(C13_OBS, "O13.3c")
 
 WALK_STUBS = ["syscalls::openat_follow", "syscalls::statx", "syscalls::readlinkat", "FdExt>::metadata", "try_clone_to_owned"]
@@ -290,7 +290,7 @@ PROPERTIES = {
         "explanation": "C12 (sequential part): Root::mkdir_all is executed with Resolver::resolve_partial and Handle::reopen replaced by contract stubs; the not-yet-existing tail is every byte string <= L, the mode every u32, the kernel arbitrary.",
         "outside": "convergence of concurrent callers (Kani has no threads); that the handle equals an independent in-root resolution (resolver); umask / setgid inheritance (kernel); tails longer than L",
         "assumptions": ["resolve_partial returns (arbitrary in-root fd, arbitrary tail) per its contract", "Handle::reopen returns an arbitrary fd of the same object or an error"],
-        "bounds": {"quick": {"PATH_L": 3}, "thorough": {"PATH_L": 4}},
+        "bounds": {"quick": {"PATH_L": 2}, "thorough": {"PATH_L": 3}},
         "obligations": C12_OBS,
     },
     "C05": {
@@ -309,7 +309,7 @@ PROPERTIES["C03"] = {
                    "the kernel where libpathrs itself descends (remove_all, mkdir_all); decided for every path <= L and arbitrary kernel answers.",
     "outside": "the resolver (C01/C02); attacker interleavings; remove_all's recursion below the first directory listing; hardlink/rename are in the thorough tier of C14",
     "assumptions": ["Resolver::resolve / resolve_partial / Handle::reopen return arbitrary in-root descriptors (contract)", "kernel K"],
-    "bounds": {"quick": {"PATH_L": 3}, "thorough": {"PATH_L": 4}},
+    "bounds": {"quick": {"PATH_L": 4}, "thorough": {"PATH_L": 4}},
     "obligations": C03_OBS,
 }
 PROPERTIES["C10"] = {
@@ -318,7 +318,7 @@ PROPERTIES["C10"] = {
                    "fd exhaustion and the first use of the global procfs handle.",
     "outside": "faults inside the emulated walks; allocation failure (Kani models allocation as infallible); the Lazy initialisers of fs.protected_symlinks and ProcfsBase::into_path's expect (suspected, not confirmed natively); multi-fault sequences beyond those K generates in one run",
     "assumptions": ["kernel K", "resolver contract stubs"],
-    "bounds": {"quick": {"PATH_L": 3}, "thorough": {"PATH_L": 4}},
+    "bounds": {"quick": {"PATH_L": 4}, "thorough": {"PATH_L": 4}},
     "obligations": C10_OBS,
 }
 PROPERTIES["C11"] = {
@@ -326,7 +326,7 @@ PROPERTIES["C11"] = {
                    "that nothing was closed twice or used after close, that caller descriptors were never closed; the C boundary returns a raw descriptor only for Ok and does not close it.",
     "outside": "the walk's internal Rc<OwnedFd> handling (do_resolve); FD_CLOEXEC is checked as a flag on the creating call (O_CLOEXEC), not via fcntl; attacker interleavings",
     "assumptions": ["close(2) model", "descriptor numbers never reused by the model (a stale use is then a detected use-after-close)"],
-    "bounds": {"quick": {"PATH_L": 3}, "thorough": {"PATH_L": 4}},
+    "bounds": {"quick": {"PATH_L": 4}, "thorough": {"PATH_L": 4}},
     "obligations": C11_OBS,
 }
 
@@ -339,10 +339,10 @@ NOT_APPLICABLE = {
 
 # quick tier = one parallel wave per property (<= 12 harnesses); everything else runs in the thorough tier
 QUICK_SETS = {
-    "C03": ["O14.0", "O14.1.base", "O14.5.base", "O14.6.base", "O14.7.base", "O13.2a", "O13.1a", "O13.1b", "O13.3b", "O12.2a"],
-    "C05": ["O5.1a", "O5.1b", "O5.1c", "O5.1d", "O5.2a", "O5.2b", "O5.2c", "O14.5.base", "O13.3b"],
-    "C10": ["O10.4", "O10.5", "O10.3", "O10.1a", "O10.1b", "O10.1c", "O6.1", "O14.6.base", "O12.2c", "O13.1b", "O13.3b", "OE.rawos_d0"],
-    "C11": ["O11.c1", "O11.c4", "O14.5.base", "O14.5.nobase", "O14.6.base", "O6.3", "O6.4c", "O12.2d", "O13.3c"],
+    "C03": ["O14.0", "O14.1.base", "O14.5.base", "O14.6.base", "O14.7.base", "O13.2a", "O13.1a", "O13.1b", "O13.3a"],
+    "C05": ["O5.1a", "O5.1b", "O5.1c", "O5.1d", "O5.2a", "O5.2b", "O5.2c", "O14.5.base", "O14.6.base"],
+    "C10": ["O10.4", "O10.5", "O10.3", "O10.1a", "O10.1b", "O10.1c", "O6.1", "O14.6.base", "O14.5.base", "O13.1b", "O13.3a", "OE.rawos_d0"],
+    "C11": ["O11.c1", "O11.c4", "O14.5.base", "O14.5.nobase", "O14.6.base", "O14.1.base", "O6.3", "O6.4c"],
     "C14": ["O14.0", "O14.1.base", "O14.2.base", "O14.3.base", "O14.4.base", "O14.5.base", "O14.6.base", "O14.6.nobase", "O14.7.base", "O14.8", "OE.inval_d0", "OE.rawos_d0"],
 }
 
